@@ -232,8 +232,9 @@ def main(args, script):
 
     wall = time.time() - t0
     write_evidence(prop, spec, tier, args.seed, agg, wall, wall_runs, resample, known_seen, len(unknown), sweep)
-    print("runs=%d steps=%d distinct_states=%d wall=%.1fs runs/h=%.0f known=%d unknown=%d" % (
-        agg.runs, agg.steps, len(agg.states), wall, agg.runs / max(wall_runs, 1e-9) * 3600, len(known_seen), len(unknown)))
+    print("runs=%d steps=%d distinct_states=%d wall=%.1fs runs/h=%.0f known=%d unknown=%d slowest_run=%dms(#%s)" % (
+        agg.runs, agg.steps, len(agg.states), wall, agg.runs / max(wall_runs, 1e-9) * 3600, len(known_seen), len(unknown),
+        agg.slowest[0], agg.slowest[1]))
     if nondet:
         return 2
     if reported:
@@ -273,6 +274,7 @@ def write_evidence(prop, spec, tier, seed, agg, wall, wall_runs, resample, known
         "runs_per_hour": round(agg.runs / max(wall_runs, 1e-9) * 3600),
         "seeds": {"verif_seed": seed, "first_run_index": 0, "count": agg.runs},
         "scenarios": agg.runs,
+        "slowest_run": {"wall_ms": agg.slowest[0], "run_index": agg.slowest[1], "limit_ms": 60000},
         "steps_total": agg.steps,
         "simulated_time": "logical steps only (%d); serif has no clock" % agg.steps,
         "faults_fired": st.get("faults", {}),
